@@ -287,7 +287,9 @@ def check(case, stats, scratch, profile):
         rest = got[len(out):] if got.startswith(out) else None
         word = "index out of bounds" if "index" in fault else "unwrap"
         later_marker = rest is not None and any(f"m{n}\n" in rest for n in range(len(case["steps"]))) or (rest is not None and "end\n" in rest)
-        if rest is None or word not in rest or o.status != 1 or o.signal is not None or later_marker:
+        # the statement fixes the wording only for index faults ('index out of bounds'); a wrong #unwrap "aborts the same way"
+        wording_ok = (word in rest) if (rest is not None and "index" in fault) else True
+        if rest is None or not wording_ok or o.status != 1 or o.signal is not None or later_marker:
             raise Fail(f"C10:fault-not-raised:{'index' if 'index' in fault else 'unwrap'}",
                        f"expected output {out!r} followed by a `{fault}` message and exit status 1 with nothing executed afterwards; got {got!r} status {o.status} signal {o.signal}\n--- program ---\n{src}", replay)
     stats.sample({"program": src[-900:], "expected": out, "fault": fault})
